@@ -446,10 +446,10 @@ Lemma exec_files_inv : forall files t fs o t' fs' es k a has,
        (es2 = [] -> b2n e1 <= wf es /\
           (o = ODone -> files <> [] \/ (a = 0 /\ has = false) ->
            k1 = k + length files /\ a1 = 0 /\ has1 = false /\ e1 = false))) /\
-  (fs = [] -> o = ODone) /\ t' = tbl_of_events es t.
+  (fs = [] -> o = ODone /\ fs' = []) /\ t' = tbl_of_events es t.
 Proof.
   induction files as [|f rest IH]; intros t fs o t' fs' es k a has HI Hnorm Hfiles Hex.
-  - simpl in Hex. inversion Hex; subst o t' fs' es. split; [|split; [reflexivity|reflexivity]].
+  - simpl in Hex. inversion Hex; subst o t' fs' es. split; [|split; [auto|reflexivity]].
     intros es1 es2 E. symmetry in E. apply app_eq_nil in E as [-> ->].
     exists k, a, has, false. cbn [b2n]. rewrite Nat.add_0_r. simpl. rewrite app_nil_r.
     split; [exact HI|]. split; [reflexivity|]. split; [lia|]. split.
@@ -567,6 +567,23 @@ Proof.
       * intros ->. destruct (Snf eq_refl) as [Ho _]. contradiction.
 Qed.
 
+
+Lemma Inv_pos_le t k a has : Inv t k a has -> pos k a <= plen.
+Proof.
+  intros HI. destruct (normalize t k a has HI) as (k' & a' & has' & HI' & _ & <-).
+  destruct has'.
+  - destruct HI' as (_ & _ & _ & (g & r & Hg & _ & (_ & _ & Hle & _) & _)).
+    apply (pos_bound k' g a' Hg Hle).
+  - destruct HI' as (Hm & _ & _ & ->). simpl in Hm. rewrite Nat.add_0_r in Hm.
+    unfold pos. rewrite Nat.add_0_r. rewrite <- (firstn_skipn k' all) at 2. rewrite plan_app, app_length. lia.
+Qed.
+
+Lemma exec_files_single f (t : list rev) fs :
+  exec_files [f] t fs = execute f t fs.
+Proof.
+  cbn [ExecModel.exec_files]. destruct (execute f t fs) as [[[o t1] fs1] es].
+  destruct o; try reflexivity. rewrite app_nil_r. reflexivity.
+Qed.
 
 (** ** [Pending] from a state that satisfies the invariant *)
 Definition cfg_ok (c : cfg) : Prop :=
@@ -745,7 +762,7 @@ Proof.
     + intros es1 es2 E.
       destruct (Hgen es1 es2 E) as (k1 & a1 & has1 & e' & d' & w & G1 & G2 & G3 & G4 & G5 & _).
       exists k1, a1, has1, e', d'. split; [exact G1|split; [exact G2|split; [exact G3|lia]]].
-    + intros -> ->. specialize (Hnf eq_refl). subst o.
+    + intros -> ->. destruct (Hnf eq_refl) as [-> _].
       destruct (Hgen es' [] ltac:(rewrite app_nil_r; reflexivity))
         as (k1 & a1 & has1 & e' & d' & w & G1 & G2 & G3 & G4 & _ & G5).
       assert (chosen = f :: l) as Ech by reflexivity.
